@@ -31,15 +31,15 @@ CWDS = [None, "/", None]
 
 def run(tier, rep):
     c.build_harness()
-    reps, threads, procs = (16, 4, 4) if tier == "quick" else (200, 16, 32)
+    reps, threads, procs = (16, 4, 4) if tier == "quick" else (48, 8, 8)
     total = 0
-    for inst, stride in (("names", 1), ("children", 8 if tier == "quick" else 1), ("attrs", 6 if tier == "quick" else 1)):
+    for inst, stride in (("names", 1), ("children", 8 if tier == "quick" else 2), ("attrs", 6 if tier == "quick" else 2)):
         r, cases = pc.run_instance("C05", inst, tier, invariants=["TypeOK", "Exact", "Deterministic"])
         pc.model_violation(rep, r)
         rep.add(states=r.distinct, transitions=r.generated)
         mm = os.path.join(c.OUT, "cases", "C05-%s.mm.ndjson" % inst)
         dig = os.path.join(c.OUT, "cases", "C05-%s.digests" % inst)
-        nrandom = (600 if tier == "quick" else 8000) if inst == "names" else 0
+        nrandom = (600 if tier == "quick" else 3000) if inst == "names" else 0
         s = c.harness(["c05-repeat", "--cases", cases, "--reps", reps, "--threads", threads, "--stride", stride,
                        "--random", nrandom, "--seed", c.seed(), "--mismatches", mm, "--digests", dig + ".0"], timeout=3000)
         for m in c.read_ndjson(mm):
